@@ -52,6 +52,8 @@ var c07Universe = []c07Pkg{
 	{"gopkg.in/yaml.v2", "yaml"}, {"strings", "strings"}, {"A/pkg", "pkg"},
 	// distinct paths that differ only in letter case (and share the package name)
 	{"x.com/Y/fmt", "fmt"}, {"github.com/Sirupsen/logrus", "logrus"}, {"github.com/sirupsen/logrus", "logrus"},
+	// a path and a sub-path of it, with one package name
+	{"github.com/go-chi/chi", "chi"}, {"github.com/go-chi/chi/v5", "chi"},
 }
 
 type c07Spec struct {
@@ -102,6 +104,10 @@ var c07Positions = []string{
 	"\t_ = func() %[1]s { return nil }",
 	"\t_ = v.(%[1]s)",
 	"const k%[2]d = %[1]s + 1",
+	"\t_ = map[int]string{%[1]s: \"k\"}",
+	"\t_ = [...]string{%[1]s: \"i\"}",
+	"\t_ = map[string]int{\"v\": %[1]s}",
+	"\t_ = T{f: %[1]s}",
 }
 
 func c07Names() map[string]string {
@@ -123,7 +129,7 @@ func c07Generate(r *rand.Rand) *c07Config {
 		// name: leave out the one path for which it is not
 		var q []int
 		for _, k := range perm {
-			if c07Universe[k].path != "gopkg.in/yaml.v2" {
+			if c07Universe[k].path != "gopkg.in/yaml.v2" && c07Universe[k].path != "github.com/go-chi/chi/v5" {
 				q = append(q, k)
 			}
 		}
@@ -382,7 +388,7 @@ func (cfg *c07Config) resolverFor() resolver.RestorerResolver {
 	case "simple":
 		return simple.New(c07Names())
 	case "guess.WithMap":
-		return guess.WithMap(map[string]string{"gopkg.in/yaml.v2": "yaml"})
+		return guess.WithMap(map[string]string{"gopkg.in/yaml.v2": "yaml", "github.com/go-chi/chi/v5": "chi"})
 	}
 	return guess.New()
 }
